@@ -252,8 +252,9 @@ def run(pid, tier, seed):
         scripts.append(("random", rand_script(rng, rng.choice([30, 80, 200]) if tier == "quick" else rng.choice([50, 200, 600]),
                                               user=(True if (pid == "C08" or i % 3 == 2) else "listen" if i % 2 else False))))
     traces, seen = [], set()
-    for src, s in scripts:
-        t = tsm.replay(s, (1, 2, 3), (1, 2, 3))
+    for k, (src, s) in enumerate(scripts):
+        # in every third execution the first application listener is faulty: it fails in each stream notification
+        t = tsm.replay(s, (1, 2, 3), (1, 2, 3), raiser=("l1" if k % 3 == 1 else None))
         t["src"] = src
         traces.append(t)
         acts = set(e["a"] for e in s)
@@ -293,7 +294,7 @@ def run(pid, tier, seed):
                 rep.violation("real execution is not a behaviour of TorStateM: step %d %s of a %s script; observed %s"
                               % (k + 1, json.dumps(dict((a, b) for a, b in st.items() if a != "obs")), traces[i]["src"],
                                  json.dumps(st["obs"])[:700]),
-                              dict(property=pid, module="TorStateM", script=strip(traces[i]), matched=k, failing_step=st,
+                              dict(property=pid, module="TorStateM", script=strip(traces[i]), raiser=traces[i].get("raiser"), matched=k, failing_step=st,
                                    errors=traces[i]["errors"]))
                 n += 1
         rep.cov["rejected_traces"] = len(bad)
@@ -305,7 +306,7 @@ def run(pid, tier, seed):
 
 def replay(pid, path):
     p = json.load(open(path))
-    t = tsm.replay(p["script"], (1, 2, 3), (1, 2, 3))
+    t = tsm.replay(p["script"], (1, 2, 3), (1, 2, 3), raiser=p.get("raiser") or None)
     res, r = tlc.validate_traces("TorStateMTrace", "TorStateMTrace.cfg", [t])
     x = res[0]
     print("replay: matched %d of %d steps" % (x["matched"], x["wanted"]))
